@@ -584,12 +584,15 @@ void MemoryLeakDetector::storeLeakInformation(MemoryLeakDetectorNode * node, cha
     memoryTable_.addNewNode(node);
 }
 
-char* MemoryLeakDetector::reallocateMemoryAndLeakInformation(TestMemoryAllocator* allocator, char* memory, size_t size, const char* file, size_t line, bool allocatNodesSeperately)
+char* MemoryLeakDetector::reallocateMemoryAndLeakInformation(TestMemoryAllocator* allocator, char* memory, size_t size, const char* file, size_t line, bool allocatNodesSeperately, MemoryLeakDetectorNode* separateNode)
 {
     char* new_memory = reallocateMemoryWithAccountingInformation(allocator, memory, size, file, line, allocatNodesSeperately);
-    if (new_memory == NULLPTR) return NULLPTR;
+    if (new_memory == NULLPTR) {
+        if (separateNode) allocator->freeMemoryLeakNode((char*) separateNode);
+        return NULLPTR;
+    }
 
-    MemoryLeakDetectorNode *node = createMemoryLeakAccountingInformation(allocator, size, new_memory, allocatNodesSeperately);
+    MemoryLeakDetectorNode *node = separateNode ? separateNode : getNodeFromMemoryPointer(new_memory, size);
     storeLeakInformation(node, new_memory, size, allocator, file, line);
     return node->memory_;
 }
@@ -676,6 +679,10 @@ char* MemoryLeakDetector::allocMemory(TestMemoryAllocator* allocator, size_t siz
     char* memory = allocateMemoryWithAccountingInformation(allocator, size, file, line, allocatNodesSeperately);
     if (memory == NULLPTR) return NULLPTR;
     MemoryLeakDetectorNode* node = createMemoryLeakAccountingInformation(allocator, size, memory, allocatNodesSeperately);
+    if (node == NULLPTR) {
+        allocator->free_memory(memory, size, file, line);
+        return NULLPTR;
+    }
 
     storeLeakInformation(node, memory, size, allocator, file, line);
     return node->memory_;
@@ -728,16 +735,23 @@ char* MemoryLeakDetector::reallocMemory(TestMemoryAllocator* allocator, char* me
 #ifdef CPPUTEST_DISABLE_MEM_CORRUPTION_CHECK
    allocatNodesSeperately = true;
 #endif
+    /* The new accounting information is obtained first: when there is none, the old block is left as it is */
+    MemoryLeakDetectorNode* separateNode = NULLPTR;
+    if (allocatNodesSeperately) {
+        separateNode = (MemoryLeakDetectorNode*) (void*) allocator->allocMemoryLeakNode(sizeof(MemoryLeakDetectorNode));
+        if (separateNode == NULLPTR) return NULLPTR;
+    }
     MemoryLeakDetectorNode* node = NULLPTR;
     if (memory) {
         node = memoryTable_.removeNode(memory);
         if (node == NULLPTR) {
+            if (separateNode) allocator->freeMemoryLeakNode((char*) separateNode);
             outputBuffer_.reportDeallocateNonAllocatedMemoryFailure(file, line, allocator, reporter_);
             return NULLPTR;
         }
         checkForCorruption(node, file, line, allocator, false);
     }
-    char* new_memory = reallocateMemoryAndLeakInformation(allocator, memory, size, file, line, allocatNodesSeperately);
+    char* new_memory = reallocateMemoryAndLeakInformation(allocator, memory, size, file, line, allocatNodesSeperately, separateNode);
     if (node) {
         /* A failed realloc leaves the old block allocated, so it has to stay tracked */
         if (new_memory == NULLPTR) memoryTable_.addNewNode(node);
